@@ -334,10 +334,16 @@ class _Gen:
                          "type": "char"})
         return body, ctx
 
-    def scalar_type(self, dir_, allow_struct=True, allow_unbounded=True):
+    def scalar_type(self, dir_, allow_struct=True, allow_unbounded=True, lex=False):
         """-> type string for a non-array field."""
         enums = self.visible_types(dir_, "enum")
         structs = self.visible_types(dir_, "struct") if allow_struct else []
+        if lex and structs and self.boolean(0.2):
+            # inside a chunked section: a struct that has a chunked section of its OWN and more members after it
+            # (what follows its </chunked> is read in the mode the section leaves behind)
+            own = [x for x in structs if _chunk_then_more(self.an.types[x][0]["body"])]
+            if own:
+                return self.pick_type(dir_, own)
         choices = [("int", 40), ("bool", 8), ("string", 14), ("encoded_string", 7), ("blob", 3)]
         if enums:
             choices.append(("enum", 15))
@@ -412,7 +418,7 @@ class _Gen:
 
     def i_field(self, ctx, body):
         name = _uniq_name(self.draw, self.field_pool, ctx["names"], "f")
-        typ = self.scalar_type(ctx["dir"])
+        typ = self.scalar_type(ctx["dir"], lex=ctx["lex"])
         ins = {"tag": "field", "name": name, "type": typ}
         r = self.an.resolve(typ)
         if r["kind"] == "string":
@@ -497,6 +503,10 @@ class _Gen:
             choices.append(("enum", 10))
         if structs:
             choices.append(("struct", 30))
+        fixed0 = [x for x in structs if self.an.struct_fixed_size(x)]
+        if fixed0 and not has_length and not delimited and self.boolean(0.3):
+            # the element count of such an array is derived from the struct's computed size
+            return self.pick_type(dir_, fixed0)
         breaking = [x for x in structs if any(i["tag"] == "break" for i in spec.Analysis.flatten(self.an.types[x][0]["body"]))]
         if breaking and self.boolean(0.3 if ctx["lex"] else 0.1):
             # elements that carry their own <chunked>/<break>: one element spans several chunks of the parent
@@ -760,6 +770,10 @@ def _user_types(g, body):
         if t in where:
             out.add(where[t])
     return out
+
+
+def _chunk_then_more(body):
+    return any(ins["tag"] == "chunked" and i + 1 < len(body) for i, ins in enumerate(body))
 
 
 def _has_dummy(body):
